@@ -192,7 +192,7 @@ ASSUME = ['paged listing (get_all) through the cache follows the cache order, wh
 
 def main(argv):
     return run_check('C12', [EnfoldStream()], argv, trusted_base=TRUSTED, assumptions=ASSUME,
-                     translated=('enfold', 'memory'))
+                     translated=('enfold', 'memory', 'storage_abc'))
 
 
 if __name__ == '__main__':
